@@ -116,6 +116,10 @@ func (r *stateResolver) addConflicted(events []PDU) { // nolint: gocyclo
 	// Separate the auth events into specifically named lists because they have
 	// special rules for state resolution.
 	for _, event := range events {
+		if event.StateKey() == nil {
+			// only state events can conflict
+			continue
+		}
 		key := conflictKey{event.Type(), *event.StateKey()}
 		// Work out which block to add the event to.
 		// By default we add the event to a block in the others list.
@@ -159,6 +163,10 @@ func (r *stateResolver) addConflicted(events []PDU) { // nolint: gocyclo
 
 // Add an event to the resolved auth events.
 func (r *stateResolver) addAuthEvent(event PDU) {
+	if event.StateKey() == nil {
+		// an event that is not a state event cannot be used for auth checks
+		return
+	}
 	if event.RoomID().String() != "" && r.roomID == "" {
 		r.roomID = event.RoomID().String()
 	}
